@@ -94,6 +94,42 @@ Fixpoint lookup (t : table) (name : string) (args : list Z) : option dtree :=
 
 Definition cell_slice (c : cell) : tslice := let 'Cell ty bits refs := c in mkTS ty (mkS bits refs).
 
+(* ---- augmented dictionaries (hashmap/parse.py: parse_aug / deserialize_hashmap_aug_node), with arbitrary
+   value (x) and extra (y) deserialisers.  The nodes in the order they are visited: a leaf (its key, and the
+   slice of its cell after the label: the extra, then the value, are read from it), or a fork once both of its
+   subtrees are done (the slice of its cell after the label and the two references: its extra is read from
+   it).  A non-ordinary cell contributes nothing.  (Model.Hashmap.parse_aug_edge is the same walk with the
+   extra modelled as a fixed number of bits.) *)
+Inductive aug_node := ANLeaf (key : list bool) (s : slice) | ANFork (s : slice).
+Fixpoint aug_nodes (fuel : nat) (ty : Z) (s : slice) (m : Z) (prefix : list bool) : result (list aug_node) :=
+  match fuel with
+  | O => Err ERecursion
+  | S f =>
+    if negb (ty =? ty_ordinary)%Z then Ok []
+    else
+    bind (deserialize_hml s m) (fun '(l, suffix, s1) =>
+    if (m <? Z.of_nat l)%Z then Err EValue else      (* label longer than the remaining key *)
+    let prefix' := prefix ++ suffix in
+    let m' := (m - Z.of_nat l)%Z in
+    if (m' =? 0)%Z then Ok [ANLeaf prefix' s1]
+    else
+      bind (s_load_ref s1) (fun '(c0, s2) =>
+      let 'Cell ty0 bits0 refs0 := c0 in
+      bind (aug_nodes f ty0 (mkS bits0 refs0) (m' - 1) (prefix' ++ [false])) (fun ls =>
+      bind (s_load_ref s2) (fun '(c1, s3) =>
+      let 'Cell ty1 bits1 refs1 := c1 in
+      bind (aug_nodes f ty1 (mkS bits1 refs1) (m' - 1) (prefix' ++ [true])) (fun rs =>
+      Ok (ls ++ rs ++ [ANFork s3]))))))
+  end.
+
+(* what visiting a node gives: the pair of a leaf, the extra, and the slice the node's cell is left with *)
+Definition aug_visit := (option (Z * pv) * pv * slice)%type.
+(* (dict, extras) as parse_hashmap_aug returns them, and what the root's slice is left with *)
+Definition aug_result (s0 : slice) (rs : list aug_visit) : pv * slice :=
+  (PAugDict (flat_map (fun r => match fst (fst r) with Some kv => [kv] | None => [] end) rs)
+            (map (fun r => snd (fst r)) rs),
+   last (map snd rs) s0).
+
 (* widths of the variables, for bit tests *)
 Definition op_width (o : dop) : nat :=
   match o with
@@ -110,6 +146,18 @@ Section Run.
     match fuel with
     | O => Err ERecursion
     | S f =>
+      (* one node of an augmented dictionary: y_deserializer, then (leaf) x_deserializer, on the same slice *)
+      let visit (xt yt : dtree) (nd : aug_node) : result aug_visit :=
+          match nd with
+          | ANLeaf key ls =>
+              bind (run f yt [(0%nat, mkTS ty_ordinary ls)] [] []) (fun '(ex, ss1) =>
+              bind (get_slice ss1 0) (fun t1 =>
+              bind (run f xt [(0%nat, t1)] [] []) (fun '(v, ss2) =>
+              bind (get_slice ss2 0) (fun t2 => Ok (Some (Z.of_N (of_bits key), v), ex, ts_s t2)))))
+          | ANFork s3 =>
+              bind (run f yt [(0%nat, mkTS ty_ordinary s3)] [] []) (fun '(ex, ss1) =>
+              bind (get_slice ss1 0) (fun t1 => Ok (None, ex, ts_s t1)))
+          end in
       match t with
       | DFail => Err EOther
       | DRet e =>
@@ -197,7 +245,29 @@ Section Run.
                           end in
                         Ok (PDict (map (fun '(k, v, _) => (k, v)) kvs), set_slice ss sid (mkTS (ts_ty ts) rest)))
                     end)
-                | OAugDictE _ _ _ | OAugDict _ _ _ => Err EOther   (* run by the implementation side only *)
+                | OAugDict n xt yt =>
+                    (* Slice.load_hashmap_aug: parse_hashmap_aug on this very slice (None for a non-ordinary
+                       cell); the slice goes on after the root's extra (fork) or value (single leaf) *)
+                    if negb (ts_ty ts =? ty_ordinary) then Ok (PNone, ss)
+                    else
+                      bind (aug_nodes parse_fuel (ts_ty ts) s (Z.of_nat n) []) (fun nodes =>
+                      bind (mapM (visit xt yt) nodes) (fun rs =>
+                      Ok (fst (aug_result s rs), set_slice ss sid (mkTS (ts_ty ts) (snd (aug_result s rs))))))
+                | OAugDictE n xt yt =>
+                    (* Slice.load_hashmap_aug_e: the cell itself when it is exotic; ahme_root$1: the dictionary
+                       of the referenced cell; ahme_empty$0: ({}, [self]), the extra is NOT read *)
+                    if negb (ts_ty ts =? ty_ordinary) then Ok (PCell (Cell (ts_ty ts) (s_bits s) (s_refs s)), ss)
+                    else
+                      bind (s_load_bit s) (fun '(x, s1) =>
+                      if x then
+                        bind (s_load_ref s1) (fun '(c, s2) =>
+                        let 'Cell ty0 bits0 refs0 := c in
+                        if negb (ty0 =? ty_ordinary) then Ok (PNone, set_slice ss sid (mkTS (ts_ty ts) s2))
+                        else
+                          bind (aug_nodes parse_fuel ty0 (mkS bits0 refs0) (Z.of_nat n) []) (fun nodes =>
+                          bind (mapM (visit xt yt) nodes) (fun rs =>
+                          Ok (fst (aug_result (mkS bits0 refs0) rs), set_slice ss sid (mkTS (ts_ty ts) s2)))))
+                      else Ok (PAugDict [] [PSlice s1], set_slice ss sid (mkTS (ts_ty ts) s1)))
                 end) (fun '(v, ss') => run f k ss' (env ++ [v]) (widths ++ [op_width o])))
       end
     end.
